@@ -353,8 +353,9 @@ func (m *Manager) PatchStableService(c *TrafficRoutingContext) (bool, error) {
 	if len(c.ObjectRef) == 0 {
 		return false, nil
 	}
+	// without a separate canary Service there is nothing to pin: done (not "retry" - the blue-green caller would wait for ever)
 	if c.OnlyTrafficRouting || c.DisableGenerateCanaryService {
-		return true, nil
+		return false, nil
 	}
 
 	// fetch stable service
